@@ -254,7 +254,7 @@ func x03RenderAll(xs []interface{}) string {
 }
 
 func init() {
-	Exec["typehelper.ToSlice"] = func(a []V) string {
+	Exec["typehelper.ToSlice/values"] = func(a []V) string {
 		r := typehelper.ToSlice(x03Arg(a[0]))
 		return L(B(r != nil), x03RenderAll(r))
 	}
@@ -468,7 +468,7 @@ func x03Key(arg string) string {
 func x03Emit(g *Gen, arg string) {
 	key := x03Key(arg)
 	g.Stat("arg-" + strings.SplitN(key, ":", 2)[0])
-	g.Do("typehelper.ToSlice", L(arg), key)
+	g.Do("typehelper.ToSlice/values", L(arg), key)
 	g.Do("typehelper.ToSlice/fresh", L(arg), "fresh:"+key)
 }
 
@@ -483,7 +483,7 @@ func genX03(g *Gen) {
 	for _, a := range non {
 		x03Emit(g, a)
 	}
-	g.Exhaust = append(g.Exhaust, "typehelper.ToSlice: one value of every non-slice kind the harness can build (nil, 11 scalar kinds, string, array, pointer (to slice too), nil pointer, map, struct, chan, func)")
+	g.Exhaust = append(g.Exhaust, "typehelper.ToSlice/values: one value of every non-slice kind the harness can build (nil, 11 scalar kinds, string, array, pointer (to slice too), nil pointer, map, struct, chan, func)")
 	// (2) exhaustive: slices of length 0..3 over small element alphabets, nil / empty / named
 	type alpha struct {
 		t     string
@@ -526,7 +526,7 @@ func genX03(g *Gen) {
 			}
 		}
 	}
-	g.Exhaust = append(g.Exhaust, "typehelper.ToSlice: every slice of length 0..3 (0..2 for []interface{} in the quick tier) over the element alphabets of 8 element types (int, uint8, bool, string, interface{} holding nil/int/string/slices/nil pointer/map, []int, *int, [1]int), nil and empty, plain and named slice types")
+	g.Exhaust = append(g.Exhaust, "typehelper.ToSlice/values: every slice of length 0..3 (0..2 for []interface{} in the quick tier) over the element alphabets of 8 element types (int, uint8, bool, string, interface{} holding nil/int/string/slices/nil pointer/map, []int, *int, [1]int), nil and empty, plain and named slice types")
 	// (3) structured random value trees
 	n := g.N(3000, 60000)
 	for c := 0; c < n; c++ {
@@ -555,7 +555,7 @@ func genX03(g *Gen) {
 			}
 		}
 		arg := L("3", "[0]", "0", L(xs...))
-		g.Do("typehelper.ToSlice", L(arg), "long:"+Int(ln))
+		g.Do("typehelper.ToSlice/values", L(arg), "long:"+Int(ln))
 		g.Do("typehelper.ToSlice/fresh", L(arg), "fresh:long:"+Int(ln))
 		g.Stat("arg-long")
 	}
